@@ -9,7 +9,7 @@ open AL
 inductive FState | begin | firstCh | spaceFound
 deriving DecidableEq, Repr
 
-/-- MAX_LINE_LEN - 1 (src/parser.c, after the terminator fix). -/
+/-- MAX_LINE_LEN - 1 (src/parser.c): the most characters a filtered line may have. -/
 def maxFiltered : Nat := 99
 
 def tolower (c : Ch) : Ch := if ch! 'A' ≤ c && c ≤ ch! 'Z' then c + 32 else c
@@ -29,15 +29,18 @@ def filterStep (st : FState) (c : Ch) : FState × Option Ch :=
   | .spaceFound =>
     if ch! '!' < c && c < 128 then (.spaceFound, some (tolower c)) else (.spaceFound, none)
 
-/-- `filter_assembly_str_fsa`: `none` = ASM_ERROR (byte above '~'); otherwise the filtered
-    string (reversed accumulator `acc`, `j = acc.length`) and the index `i` where it stopped. -/
+/-- `filter_assembly_str_fsa`: `none` = ASM_ERROR (byte above '~', or more significant
+    characters than `filter_str` holds); otherwise the filtered string (reversed accumulator
+    `acc`, `j = acc.length`) and the index `i` where it stopped. -/
 def filterGo (st : FState) (acc : Str) (j i : Nat) : Str → Option (Str × Nat)
   | [] => some (acc.reverse, i)
   | c :: cs =>
-    if stopCh c || j ≥ maxFiltered then some (acc.reverse, i)
+    if stopCh c then some (acc.reverse, i)
     else
       match filterStep st c with
-      | (st', some o) => if c > 126 then none else filterGo st' (o :: acc) (j + 1) (i + 1) cs
+      | (st', some o) =>
+        if j ≥ maxFiltered then none
+        else if c > 126 then none else filterGo st' (o :: acc) (j + 1) (i + 1) cs
       | (st', none)   => if c > 126 then none else filterGo st' acc j (i + 1) cs
 
 def filterLine (s : Str) : Option (Str × Nat) := filterGo .begin [] 0 0 s
